@@ -24,6 +24,7 @@ import (
 func endApp() *app.Res {
 	rs := app.NewRes()
 	rs.Funcs["bye"] = app.Static("bye")
+	rs.Funcs["hdr"] = app.Static("hdr")
 	rs.Funcs["mark"] = func(ctx context.Context, sym string, input []byte) (resource.Result, error) {
 		return resource.Result{Content: "m", FlagSet: []uint32{state.FLAG_USERSTART}}, nil
 	}
@@ -33,7 +34,7 @@ func endApp() *app.Res {
 	menu := func(c *app.P) *app.P {
 		return c.Halt().InCmp("end1", "1").InCmp("abn", "2").InCmp("term", "3").InCmp("deeper", "4").InCmp("marked", "5")
 	}
-	rs.Node("root", "root", menu(app.Code().MOut("x", "1")).Bytes())
+	rs.Node("root", "root {{.hdr}}", menu(app.Code().Load("hdr", 8).Map("hdr").MOut("x", "1")).Bytes())
 	rs.Node("deeper", "deeper", app.Code().Halt().InCmp("end1", "1").InCmp("abn", "2").InCmp("term", "3").InCmp("_", "0").Bytes())
 	rs.Node("marked", "marked {{.mark}}", app.Code().Load("mark", 4).Map("mark").Halt().InCmp("_", "0").Bytes())
 	rs.Node("end1", "done {{.bye}}", app.Code().Load("bye", 8).Map("bye").Halt().Bytes())
@@ -103,6 +104,7 @@ func End(v *vrt.Ctx) {
 			before = c17.Take(st, ca)
 		}
 		calls0 := w.rs.FuncCalls()
+		hdr0 := w.rs.CallsOf("hdr")
 		cont, err, out := w.request(ctx, in)
 		v.Observe("cont", cont)
 		v.Observe("out", out)
@@ -131,7 +133,11 @@ func End(v *vrt.Ctx) {
 			for _, fr := range ca.Cache {
 				n += len(fr)
 			}
-			v.Assert(n == 0, "C20/restart-with-empty-cache")
+			// the entry node has just loaded its own symbol afresh: nothing else
+			// is cached, and there is exactly one scope per level again
+			v.Assert(n == 1, "C20/restart-with-empty-cache")
+			v.Assert(w.rs.CallsOf("hdr") == hdr0+1, "C20/restart-loads-afresh")
+			v.Assert(int(ca.Levels()) == len(st.ExecPath)+1, "C20/restart-with-empty-cache")
 			if marked {
 				v.Assert(flag(st, state.FLAG_USERSTART), "C20/restart-keeps-client-flags")
 				v.Cover("C20/restart-kept-flag")
